@@ -234,7 +234,7 @@ Next ==
      \/ \E c \in Clients, k \in {"op", "unop", "present", "unpresent", "shutup", "unshutup", "kick", "identify"},
            d \in Clients : UserAction(c, k, d)
      \/ \E c \in Clients, k \in {"lock", "unlock", "clearchat", "subgroups"} : GroupAction(c, k)
-     \/ \E c \in Clients, tg \in Groups, ps \in {{}, {"present"}, {"op"}, {"present", "message"}},
+     \/ \E c \in Clients, tg \in Groups, ps \in {{}, {"present"}, {"op"}, {"present", "message"}, {"message", "op"}},
            ex \in BOOLEAN, sub \in BOOLEAN, tu \in {"", "op", "newname"} : MakeToken(c, tg, ps, ex, sub, tu)
 
 Spec == Init /\ [][Next]_vars
